@@ -621,6 +621,14 @@ impl ToolCallCollector {
                         .unwrap_or_default();
 
                     if let (Some(call_id), Some(name)) = (call_id, name) {
+                        // A provider may repeat the done event of one call; it is one call.
+                        if self
+                            .completed_function_calls
+                            .iter()
+                            .any(|call| call.call_id == call_id && call.output_index == output_index)
+                        {
+                            return;
+                        }
                         self.completed_function_calls.push(FunctionCallItem {
                             output_index,
                             call_id,
